@@ -3,7 +3,8 @@ import BppProofs.Lemmas.NumDerivRaise
 C12 helper lemmas, part 13 (round 2): the remaining fall-back paths, end to end — five-point backward
 and forward one-sided formulas, two-point right-hand probe, halved-step retries of the two- and
 three-point schemes.  Situation: one selected variable, passed with a constraint (`qv`, precision 0)
-that refuses some probes; no constraint on the wrapped function's side, `|f| < VERY_BIG` (`FreeFn`).
+that refuses some probes; no constraint on the wrapped function's side (`FreeFn`), `|f| < VERY_BIG`
+at the base point and on the probed segments (`BoundedNear`; two- and three-point schemes only).
 -/
 namespace Bpp.NumDeriv
 open Bpp Bpp.Scalar
@@ -257,7 +258,8 @@ theorem retry_two_refused (f : List ℝ → ℝ) {params B : PList ℝ} (hF : Fr
     (value : ℝ) (fn : Fn ℝ) (q0 : Param ℝ) (rest : PList ℝ) (H : ℝ) (fv : Option ℝ)
     (hri : RI f params B var fn (q0 :: rest)) (hprec : q0.prec = 0) (hval : q0.value = value) (hH : 0 < H)
     (hrejL : q0.violates (value + -H) = true) (hrejR : q0.violates (value + H) = true)
-    (hacc : q0.violates (value + H / (-(ofInt 2))) = false) :
+    (hacc : q0.violates (value + H / (-(ofInt 2))) = false)
+    (hbx : tooBig (f (values (upd1 B var (value + H / (-(ofInt 2)))))) = false) :
     (retry f rp 10 fn (q0 :: rest) value (-H) fv).exc = none ∧
     (retry f rp 10 fn (q0 :: rest) value (-H) fv).hf = some (H / (-(ofInt 2))) ∧
     (retry f rp 10 fn (q0 :: rest) value (-H) fv).h = H / (-(ofInt 2)) ∧
@@ -277,14 +279,14 @@ theorem retry_two_refused (f : List ℝ → ℝ) {params B : PList ℝ} (hF : Fr
   have h2 : H / (-(ofInt 2)) ≠ 0 := by
     simp only [ScalarReal.ofInt_eq]; push_cast
     exact div_ne_zero (ne_of_gt hH) (by norm_num)
-  exact retry_ok f hF rp value 7 fn q0 rest (H / (-(ofInt 2))) fv hri hprec hacc h2
+  exact retry_ok f hF rp value 7 fn q0 rest (H / (-(ofInt 2))) fv hri hprec hacc h2 hbx
 
 
 /-- two-point scheme, right-hand probe: `x - H` refused, `x + H` accepted -/
 theorem step2_right (f : List ℝ → ℝ) {params B : PList ℝ} (hF : FreeFn f params B) {w0 : W ℝ} (lp : Loop ℝ)
     (hLI : LI f params B w0 (fun w => w.f1) lp) (i : Nat) (var : Name) (b qv : Param ℝ)
     (hqv : find? params var = some qv) (hb : find? B var = some b) (hlast : lp.lastVar ≠ some var) (hh : 0 < lp.w.h)
-    (hprec : qv.prec = 0)
+    (hprec : qv.prec = 0) (hB : BoundedNear f B lp.w.h)
     (hrej : qv.violates (b.value + -((one + Scalar.abs b.value) * lp.w.h)) = true)
     (hacc : qv.violates (b.value + (one + Scalar.abs b.value) * lp.w.h) = false) :
     (step2 f params lp i var).2 = none ∧ (step2 f params lp i var).1.lastVar = some var ∧
@@ -306,6 +308,7 @@ theorem step2_right (f : List ℝ → ℝ) {params B : PList ℝ} (hF : FreeFn f
     exact mul_pos this hh
   obtain ⟨a1, a2, a3, a4, a5, _, _⟩ := retry_flip f hF true b.value 8 lp.w.fn qv rest _ none hri hprec hqval
     (by linarith : -((one + Scalar.abs b.value) * lp.w.h) < 0) hrej (by rw [neg_neg]; exact hacc)
+    (hB.at' var b hb _ 1 (by simp) (by ring))
   rw [neg_neg] at a2 a3 a4 a5
   unfold step2
   have hnh : (!has params var) = false := by rw [hhas]; rfl
@@ -318,7 +321,7 @@ theorem step2_right (f : List ℝ → ℝ) {params B : PList ℝ} (hF : FreeFn f
 theorem step2_halved (f : List ℝ → ℝ) {params B : PList ℝ} (hF : FreeFn f params B) {w0 : W ℝ} (lp : Loop ℝ)
     (hLI : LI f params B w0 (fun w => w.f1) lp) (i : Nat) (var : Name) (b qv : Param ℝ)
     (hqv : find? params var = some qv) (hb : find? B var = some b) (hlast : lp.lastVar ≠ some var) (hh : 0 < lp.w.h)
-    (hprec : qv.prec = 0)
+    (hprec : qv.prec = 0) (hB : BoundedNear f B lp.w.h)
     (hrejL : qv.violates (b.value + -((one + Scalar.abs b.value) * lp.w.h)) = true)
     (hrejR : qv.violates (b.value + (one + Scalar.abs b.value) * lp.w.h) = true)
     (hacc : qv.violates (b.value + (one + Scalar.abs b.value) * lp.w.h / (-(ofInt 2))) = false) :
@@ -341,6 +344,8 @@ theorem step2_halved (f : List ℝ → ℝ) {params B : PList ℝ} (hF : FreeFn 
     exact mul_pos this hh
   obtain ⟨a1, a2, a3, a4, a5, _, _⟩ := retry_two_refused f hF true b.value lp.w.fn qv rest _ none hri hprec hqval hpos
     hrejL hrejR hacc
+    (hB.at' var b hb _ (-1 / 2) (by rw [abs_le]; constructor <;> norm_num)
+      (by simp only [ScalarReal.ofInt_eq]; push_cast; ring))
   unfold step2
   have hnh : (!has params var) = false := by rw [hhas]; rfl
   rw [hnh]
@@ -353,7 +358,7 @@ symmetric probes with half the step -/
 theorem step3_halved (f : List ℝ → ℝ) {params B : PList ℝ} (hF : FreeFn f params B) {w0 : W ℝ} (lp : Loop ℝ)
     (hLI : LI f params B w0 (fun w => w.f2) lp) (i : Nat) (var : Name) (b qv : Param ℝ)
     (hqv : find? params var = some qv) (hb : find? B var = some b) (hlast : lp.lastVar ≠ some var) (hh : 0 < lp.w.h)
-    (hprec : qv.prec = 0)
+    (hprec : qv.prec = 0) (hB : BoundedNear f B lp.w.h)
     (hrejL : qv.violates (b.value + -((one + Scalar.abs b.value) * lp.w.h)) = true)
     (hrejR : qv.violates (b.value + (one + Scalar.abs b.value) * lp.w.h) = true)
     (haccL : qv.violates (b.value + (one + Scalar.abs b.value) * lp.w.h / (-(ofInt 2))) = false)
@@ -382,6 +387,8 @@ theorem step3_halved (f : List ℝ → ℝ) {params B : PList ℝ} (hF : FreeFn 
     exact mul_pos this hh
   obtain ⟨a1, a2, a3, a4, a5, a6, a7⟩ := retry_two_refused f hF true b.value lp.w.fn qv rest _ none hri hprec hqval hpos
     hrejL hrejR haccL
+    (hB.at' var b hb _ (-1 / 2) (by rw [abs_le]; constructor <;> norm_num)
+      (by simp only [ScalarReal.ofInt_eq]; push_cast; ring))
   -- second loop
   have hhalf : (one + Scalar.abs b.value) * lp.w.h / (-(ofInt 2)) < 0 := by
     simp only [ScalarReal.ofInt_eq]; push_cast
@@ -397,6 +404,8 @@ theorem step3_halved (f : List ℝ → ℝ) {params B : PList ℝ} (hF : FreeFn 
     { qv with value := b.value + (one + Scalar.abs b.value) * lp.w.h / (-(ofInt 2)) } []
     (-((one + Scalar.abs b.value) * lp.w.h / (-(ofInt 2)))) none hri3 hprec
     (by rw [violates_value_irrel]; exact haccR) (neg_ne_zero.mpr (ne_of_lt hhalf))
+    (hB.at' var b hb _ (1 / 2) (by rw [abs_le]; constructor <;> norm_num)
+      (by simp only [ScalarReal.ofInt_eq]; push_cast; ring))
   unfold step3
   have hnh : (!has params var) = false := by rw [hhas]; rfl
   rw [hnh]
@@ -407,7 +416,8 @@ theorem step3_halved (f : List ℝ → ℝ) {params B : PList ℝ} (hF : FreeFn 
 /-- `updateDerivatives` of the two-point scheme for one selected variable: everything but the
 iteration itself -/
 theorem update2_single (f : List ℝ → ℝ) (w : W ℝ) (params : PList ℝ) (v : Name) (hown : Own w.fn) (hok : w.fn.OK f)
-    (hF : FreeFn f params w.fn.params) (hpnd : (names params).Nodup) (hc1 : w.c1 = true) (hvars : w.vars = [v]) :
+    (hF : FreeFn f params w.fn.params) (hb0 : tooBig (f (values w.fn.params)) = false)
+    (hpnd : (names params).Nodup) (hc1 : w.c1 = true) (hvars : w.vars = [v]) :
     ∃ fn1, fn1.fval = f (values w.fn.params) ∧
       LI f params w.fn.params { w with fn := fn1, f1 := fn1.fval } (fun w => w.f1)
         { w := { w with fn := fn1, f1 := fn1.fval }, p := [], lastVar := none } ∧
@@ -437,7 +447,7 @@ theorem update2_single (f : List ℝ → ℝ) (w : W ℝ) (params : PList ℝ) (
   have hcond : (w.c1 && decide (w.vars.length > 0)) = true := by simp [hc1, hvars]
   rw [if_pos hcond]
   simp only [hs1]
-  have htb : tooBig fn1.fval = false := by rw [hval]; exact hF.bounded _
+  have htb : tooBig fn1.fval = false := by rw [hval]; exact hb0
   rw [htb]
   simp only [Bool.false_eq_true, if_false]
   have hloop : loopGo (step2 f params) w.vars 0 { w := { w with fn := fn1, f1 := fn1.fval }, p := [], lastVar := none }
@@ -454,7 +464,8 @@ theorem update2_single (f : List ℝ → ℝ) (w : W ℝ) (params : PList ℝ) (
 
 /-- the same for the three-point scheme without cross derivatives -/
 theorem update3_single (f : List ℝ → ℝ) (w : W ℝ) (params : PList ℝ) (v : Name) (hown : Own w.fn) (hok : w.fn.OK f)
-    (hF : FreeFn f params w.fn.params) (hpnd : (names params).Nodup) (hc1 : w.c1 = true) (hcx : w.cx = false)
+    (hF : FreeFn f params w.fn.params) (hb0 : tooBig (f (values w.fn.params)) = false)
+    (hpnd : (names params).Nodup) (hc1 : w.c1 = true) (hcx : w.cx = false)
     (hvars : w.vars = [v]) :
     ∃ fn1, fn1.fval = f (values w.fn.params) ∧
       LI f params w.fn.params { w with fn := fn1, f2 := fn1.fval } (fun w => w.f2)
@@ -486,7 +497,7 @@ theorem update3_single (f : List ℝ → ℝ) (w : W ℝ) (params : PList ℝ) (
   have hcond : (w.c1 && decide (w.vars.length > 0)) = true := by simp [hc1, hvars]
   rw [if_pos hcond]
   simp only [hs1]
-  have htb : tooBig fn1.fval = false := by rw [hval]; exact hF.bounded _
+  have htb : tooBig fn1.fval = false := by rw [hval]; exact hb0
   rw [htb]
   simp only [Bool.false_eq_true, if_false]
   have hloop : loopGo (step3 f params) w.vars 0 { w := { w with fn := fn1, f2 := fn1.fval }, p := [], lastVar := none }
@@ -503,6 +514,98 @@ theorem update3_single (f : List ℝ → ℝ) (w : W ℝ) (params : PList ℝ) (
   have hnl : ∀ p ∈ lp1.w.fn.params, p.con = none := hLI1.2.1.nocon hF.nocon
   obtain ⟨q1, q2, q3, _⟩ := finish_free f params lp1.lastVar lp1.w hnl hLI1.2.2.1
   exact ⟨q1, q2, q3⟩
+
+/-! ### the ten tries of the first retry loop, in general -/
+
+/-- the step after a refused try (Two:86-89, Three:88-91) -/
+noncomputable def nextStep (h : ℝ) : ℝ := if ltb h zero then -h else h / (-(ofInt 2))
+
+/-- the `k`-th step tried: `h, -h, -h/2, h/2, h/4, …` for `h < 0` -/
+noncomputable def stepAt (h : ℝ) : Nat → ℝ
+  | 0 => h
+  | k + 1 => stepAt (nextStep h) k
+
+theorem nextStep_ne_zero {h : ℝ} (hh : h ≠ 0) : nextStep h ≠ 0 := by
+  unfold nextStep
+  split
+  · exact neg_ne_zero.mpr hh
+  · simp only [ScalarReal.ofInt_eq]; push_cast; exact div_ne_zero hh (by norm_num)
+
+theorem abs_nextStep_le (h : ℝ) : |nextStep h| ≤ |h| := by
+  unfold nextStep
+  split
+  · rw [abs_neg]
+  · simp only [ScalarReal.ofInt_eq]; push_cast
+    rw [abs_div, abs_neg, abs_two]
+    have := abs_nonneg h
+    linarith
+
+theorem stepAt_ne_zero : ∀ (k : Nat) {h : ℝ}, h ≠ 0 → stepAt h k ≠ 0
+  | 0, _, hh => hh
+  | k + 1, _, hh => stepAt_ne_zero k (nextStep_ne_zero hh)
+
+theorem abs_stepAt_le : ∀ (k : Nat) (h : ℝ), |stepAt h k| ≤ |h|
+  | 0, _ => le_refl _
+  | k + 1, h => le_trans (abs_stepAt_le k (nextStep h)) (abs_nextStep_le h)
+
+/-- `j` tries refused by the constraint of the probed parameter, one after the other -/
+theorem retry_skip_many (f : List ℝ → ℝ) (rp : Bool) (value : ℝ) (fn : Fn ℝ) (q0 : Param ℝ) (rest : PList ℝ)
+    (fv : Option ℝ) (hprec : q0.prec = 0) (hval : q0.value = value) :
+    ∀ (j n : Nat) (h : ℝ), h ≠ 0 → (∀ i, i < j → q0.violates (value + stepAt h i) = true) →
+      retry f rp (n + 1 + j) fn (q0 :: rest) value h fv = retry f rp (n + 1) fn (q0 :: rest) value (stepAt h j) fv := by
+  intro j
+  induction j with
+  | zero => intro n h _ _; rfl
+  | succ j ih =>
+    intro n h hh hrej
+    have e : n + 1 + (j + 1) = (n + j) + 2 := by omega
+    rw [e, retry_skip f rp value (n + j) fn q0 rest h fv hprec (by rw [hval]; intro e'; apply hh; linarith)
+      (hrej 0 (by omega))]
+    have e2 : n + j + 1 = n + 1 + j := by omega
+    rw [e2]
+    exact ih n (nextStep h) (nextStep_ne_zero hh) (fun i hi => hrej (i + 1) (by omega))
+
+/-- two-point scheme, in general: the first `j < 10` tries are refused by the constraint the variable
+is passed with, the next one is accepted: the derivative is the difference quotient with that step -/
+theorem step2_first_accepted (f : List ℝ → ℝ) {params B : PList ℝ} (hF : FreeFn f params B) {w0 : W ℝ} (lp : Loop ℝ)
+    (hLI : LI f params B w0 (fun w => w.f1) lp) (i : Nat) (var : Name) (b qv : Param ℝ)
+    (hqv : find? params var = some qv) (hb : find? B var = some b) (hlast : lp.lastVar ≠ some var) (hh : lp.w.h ≠ 0)
+    (hprec : qv.prec = 0) (hB : BoundedNear f B lp.w.h) (j : Nat) (hj : j < 10)
+    (hrej : ∀ k, k < j → qv.violates (b.value + stepAt (-(one + Scalar.abs b.value) * lp.w.h) k) = true)
+    (hacc : qv.violates (b.value + stepAt (-(one + Scalar.abs b.value) * lp.w.h) j) = false) :
+    (step2 f params lp i var).2 = none ∧ (step2 f params lp i var).1.lastVar = some var ∧
+    (step2 f params lp i var).1.w.der1 = setAt lp.w.der1 i (some (d1Two lp.w.f1
+        (f (values (upd1 B var (b.value + stepAt (-(one + Scalar.abs b.value) * lp.w.h) j))))
+        (stepAt (-(one + Scalar.abs b.value) * lp.w.h) j))) := by
+  have hc := hF.ctx
+  have hhas : has params var = true := (has_iff params var).mpr (by
+    have := find?_some hqv; rw [← this.2]; exact List.mem_map_of_mem this.1)
+  have hqval : qv.value = b.value :=
+    (hc.sync qv (find?_some hqv).1 b (find?_some hb).1 (by rw [(find?_some hb).2, (find?_some hqv).2])).symm
+  obtain ⟨rest, hprep⟩ := prepare_shape f hc hLI var b qv hqv hb hlast hprec
+  have hri := prepare_RI f hLI var lp.w.h (qv :: rest) b.value _ hprep
+  have h0 : -(one + Scalar.abs b.value) * lp.w.h ≠ 0 := by
+    simp only [ScalarReal.one_eq, ScalarReal.abs_eq]
+    have : (1 + |b.value|) ≠ 0 := by positivity
+    exact mul_ne_zero (neg_ne_zero.mpr this) hh
+  have hbx : tooBig (f (values (upd1 B var (b.value + stepAt (-(one + Scalar.abs b.value) * lp.w.h) j)))) = false := by
+    apply hB.line var b hb
+    rw [add_sub_cancel_left]
+    refine le_trans (abs_stepAt_le j _) ?_
+    simp only [ScalarReal.one_eq, ScalarReal.abs_eq, abs_mul, abs_neg]
+    rw [abs_of_nonneg (by positivity : (0 : ℝ) ≤ 1 + |b.value|)]
+  have e10 : 10 = (9 - j) + 1 + j := by omega
+  have hsk := retry_skip_many f true b.value lp.w.fn qv rest none hprec hqval j (9 - j) _ h0 hrej
+  rw [← e10] at hsk
+  obtain ⟨a1, a2, a3, a4, a5, _, _⟩ := retry_ok f hF true b.value (9 - j) lp.w.fn qv rest _ none hri hprec hacc
+    (stepAt_ne_zero j h0) hbx
+  rw [← hsk] at a1 a2 a3 a4 a5
+  unfold step2
+  have hnh : (!has params var) = false := by rw [hhas]; rfl
+  rw [hnh]
+  simp only [Bool.false_eq_true, if_false, hprep]
+  simp only [a1, a2, a3, a4, a5, Option.isSome_none, Bool.false_eq_true, if_false]
+  exact ⟨trivial, trivial, trivial⟩
 
 /-- `[x]` for a one-element array -/
 theorem setAt_single (l : List (DVal ℝ)) (x : DVal ℝ) (hl : l.length = 1) : setAt l 0 x = [x] := by
